@@ -331,6 +331,11 @@ func (r Condition) IsEqual(o any) (err error) {
 		// and exit immediately if it fails due to a
 		// bad type, or uninitialized input for o.
 		if s, ok := conditionTypeAliasConverter(o); ok {
+			if !s.IsInit() {
+				err = errorf("Cannot perform equality assertion; uninitialized input")
+				return
+			}
+
 			if fn := r.condition.cfg.eqf; fn != nil {
 				// use the user-authored closure assertion
 				err = fn(r, o)
